@@ -32,9 +32,11 @@ type Gen struct {
 	R   *rand.Rand
 	Idx uint64
 	// light bookkeeping so that conditional commands sometimes match
-	lastKVIdx map[string]uint64
-	Weights   map[string]int
-	nsess     int // sessions are minted with fresh ids, as the Session endpoint does
+	lastKVIdx    map[string]uint64
+	Weights      map[string]int
+	lastRootsIdx uint64
+	script       []func() (structs.MessageType, any, string) // scripted multi-step scenarios, consumed before random commands
+	nsess        int                                         // sessions are minted with fresh ids, as the Session endpoint does
 }
 
 // recentSess picks one of the last few minted session ids (or a never-minted one)
@@ -51,7 +53,9 @@ func (g *Gen) recentSess() string {
 
 func NewGen(seed int64) *Gen {
 	// raft indexes of client commands never start at 1 (bootstrap configuration entries come first)
-	return &Gen{R: rand.New(rand.NewSource(seed)), lastKVIdx: map[string]uint64{}, Idx: 10}
+	g := &Gen{R: rand.New(rand.NewSource(seed)), lastKVIdx: map[string]uint64{}, Idx: 10}
+	g.loadScripts(seed)
+	return g
 }
 
 var (
@@ -115,6 +119,28 @@ func (g *Gen) nodeService(peer string) *structs.NodeService {
 	case 5:
 		ns.Kind = structs.ServiceKindMeshGateway
 		ns.ID, ns.Service = "mgw1", "mgw"
+	}
+	if g.chance(8) {
+		// the same instance id re-registered under changing kinds (gateway -> other gateway, proxy -> typical, native on/off)
+		ns.ID, ns.Service = "shape"+fmt.Sprint(1+g.R.Intn(2)), "shape"
+		ns.Proxy = structs.ConnectProxyConfig{}
+		ns.Connect.Native = false
+		switch g.R.Intn(6) {
+		case 0:
+			ns.Kind = structs.ServiceKindTypical
+		case 1:
+			ns.Kind = structs.ServiceKindTypical
+			ns.Connect.Native = true
+		case 2:
+			ns.Kind = structs.ServiceKindConnectProxy
+			ns.Proxy = structs.ConnectProxyConfig{DestinationServiceName: g.pick(gSvcNames)}
+		case 3:
+			ns.Kind = structs.ServiceKindTerminatingGateway
+		case 4:
+			ns.Kind = structs.ServiceKindMeshGateway
+		case 5:
+			ns.Kind = structs.ServiceKindIngressGateway
+		}
 	}
 	if g.chance(6) {
 		ns.TaggedAddresses = map[string]structs.ServiceAddress{"lan": {Address: "10.9.9." + fmt.Sprint(g.R.Intn(4)), Port: 80}}
@@ -233,7 +259,8 @@ func (g *Gen) session() (structs.MessageType, any, string) {
 	id := fmt.Sprintf("s%d", g.nsess)
 	req.Session = structs.Session{ID: UUID(id), Node: g.pick(gNodes), Name: g.pick([]string{"", "sn", "sm"}),
 		Behavior: structs.SessionBehavior(g.pick([]string{"release", "delete", ""})), TTL: g.pick([]string{"", "30s"}),
-		LockDelay: time.Duration(g.R.Intn(2)) * 15 * time.Second}
+		// short lock delays so that a paced replica applies later entries on the other side of the delay's expiry
+		LockDelay: []time.Duration{0, 0, 20 * time.Millisecond, 15 * time.Second}[g.R.Intn(4)]}
 	if g.chance(2) {
 		req.Session.NodeChecks = []string{g.pick(gChecks)}
 	}
@@ -439,7 +466,24 @@ func (g *Gen) ca() (structs.MessageType, any, string) {
 		if g.chance(2) {
 			roots = append(roots, &structs.CARoot{ID: "root-old", Name: "old", RootCert: "cert-old", SigningKeyID: "bb", RotatedOutAt: time.Unix(1600000000, 0).UTC()})
 		}
-		return structs.ConnectCARequestType, &structs.CARequest{Datacenter: "dc1", Op: structs.CAOpSetRoots, Index: g.someIdx(), Roots: roots}, "ca set-roots"
+		if g.chance(2) {
+			// a previously active root kept in the set as inactive, with and without a rotation time
+			for _, o := range []string{"r1", "r2", "r3"} {
+				if o != tag && g.chance(2) {
+					r := &structs.CARoot{ID: "root-" + o, Name: o, RootCert: "cert-" + o, SigningKeyID: "aa"}
+					if g.chance(2) {
+						r.RotatedOutAt = time.Unix(1600000100, 0).UTC()
+					}
+					roots = append(roots, r)
+				}
+			}
+		}
+		idx := g.someIdx()
+		if g.chance(2) {
+			idx = g.lastRootsIdx
+		}
+		g.lastRootsIdx = g.Idx + 1
+		return structs.ConnectCARequestType, &structs.CARequest{Datacenter: "dc1", Op: structs.CAOpSetRoots, Index: idx, Roots: roots}, "ca set-roots"
 	case 3:
 		roots := []*structs.CARoot{{ID: "root-" + tag, Name: tag, Active: true, RootCert: "cert-" + tag, SigningKeyID: "aa"}}
 		c := &structs.CAConfiguration{ClusterID: "11111111-2222-3333-4444-555555555555", Provider: "consul", Config: map[string]interface{}{"tag": tag}}
@@ -583,8 +627,13 @@ func (g *Gen) NextReq(mix string) Req {
 
 // Next returns the next log entry. Mix selects the emphasis: "all", "catalog", "kv".
 func (g *Gen) Next(mix string) Entry {
+	scripted := len(g.script) > 0
 	t, req, desc := g.nextReq(mix)
-	g.Idx += uint64(1 + g.R.Intn(3)/2)
+	if scripted {
+		g.Idx++
+	} else {
+		g.Idx += uint64(1 + g.R.Intn(3)/2)
+	}
 	var data []byte
 	var err error
 	if pm, ok := req.(proto.Message); ok {
@@ -598,7 +647,64 @@ func (g *Gen) Next(mix string) Entry {
 	return Entry{Type: t, Desc: desc, Data: data, Index: g.Idx}
 }
 
+// Scenarios that need several cooperating commands in a row are scripted (a random mix almost never lines them
+// up): a lock released by a session with a short lock delay and re-acquired at once, directly and inside a
+// transaction; a CA root rotation that keeps the old root in the set as inactive.
+func (g *Gen) loadScripts(seed int64) {
+	type step = func() (structs.MessageType, any, string)
+	kv := func(op string, key, sess string) step {
+		return func() (structs.MessageType, any, string) {
+			d := structs.DirEntry{Key: key, Value: []byte("x"), Session: UUID(sess)}
+			return structs.KVSRequestType, &structs.KVSRequest{Datacenter: "dc1", Op: api.KVOp(op), DirEnt: d}, "kv " + op
+		}
+	}
+	sess := func(id string, delay time.Duration) step {
+		return func() (structs.MessageType, any, string) {
+			return structs.SessionRequestType, &structs.SessionRequest{Datacenter: "dc1", Op: structs.SessionCreate,
+				Session: structs.Session{ID: UUID(id), Node: "n1", Behavior: structs.SessionKeysRelease, LockDelay: delay}}, "session create"
+		}
+	}
+	switch seed % 3 {
+	case 0:
+		g.script = []step{
+			func() (structs.MessageType, any, string) {
+				return structs.RegisterRequestType, &structs.RegisterRequest{Datacenter: "dc1", Node: "n1", Address: nodeAddr("n1")}, "register n1"
+			},
+			sess("ld1", 20*time.Millisecond), kv("lock", "ld/key", "ld1"), sess("ld2", 0),
+			func() (structs.MessageType, any, string) {
+				return structs.SessionRequestType, &structs.SessionRequest{Datacenter: "dc1", Op: structs.SessionDestroy, Session: structs.Session{ID: UUID("ld1")}}, "session destroy"
+			},
+			func() (structs.MessageType, any, string) {
+				d := structs.DirEntry{Key: "ld/key", Value: []byte("y"), Session: UUID("ld2")}
+				return structs.TxnRequestType, &structs.TxnRequest{Datacenter: "dc1", Ops: structs.TxnOps{{KV: &structs.TxnKVOp{Verb: api.KVLock, DirEnt: d}}}}, "txn"
+			},
+			kv("lock", "ld/key", "ld2"),
+		}
+	case 1:
+		root := func(tag string, active bool) *structs.CARoot {
+			return &structs.CARoot{ID: "root-" + tag, Name: tag, Active: active, RootCert: "cert-" + tag, SigningKeyID: "aa"}
+		}
+		g.script = []step{
+			func() (structs.MessageType, any, string) {
+				g.lastRootsIdx = g.Idx + 1
+				return structs.ConnectCARequestType, &structs.CARequest{Datacenter: "dc1", Op: structs.CAOpSetRoots, Index: 0, Roots: []*structs.CARoot{root("r1", true)}}, "ca set-roots"
+			},
+			func() (structs.MessageType, any, string) {
+				idx := g.lastRootsIdx
+				g.lastRootsIdx = g.Idx + 1
+				return structs.ConnectCARequestType, &structs.CARequest{Datacenter: "dc1", Op: structs.CAOpSetRoots, Index: idx,
+					Roots: []*structs.CARoot{root("r2", true), root("r1", false)}}, "ca set-roots"
+			},
+		}
+	}
+}
+
 func (g *Gen) nextReq(mix string) (structs.MessageType, any, string) {
+	if len(g.script) > 0 {
+		st := g.script[0]
+		g.script = g.script[1:]
+		return st()
+	}
 	var t structs.MessageType
 	var req any
 	var desc string
